@@ -7,6 +7,11 @@ use crate::xargs::XargsObs;
 
 pub const MB2: &[u8] = "\u{e9}".as_bytes(); // 2-byte UTF-8
 pub const MB4: &[u8] = "\u{1F600}".as_bytes(); // 4-byte UTF-8
+/// multi-byte characters whose continuation bytes are 0xA0 / 0x85 (NBSP and NEL when read as
+/// Latin-1): a byte-wise "is this white space" test must not cut them
+pub const MB_A0: &[u8] = "\u{e0}".as_bytes(); // C3 A0
+pub const MB_85: &[u8] = "\u{405}".as_bytes(); // D0 85
+pub const MB_2005: &[u8] = "\u{2005}".as_bytes(); // E2 80 85
 
 /// Tokenizer state *before* each byte of a default-mode input:
 /// 0 normal, 1 inside quotes, 2 right after an unquoted backslash.
@@ -56,8 +61,8 @@ fn gen_plain(rng: &mut Rng, out: &mut Vec<u8>, allow_invalid: bool) {
         match rng.weighted(&[10, 10, 2, 2, 1, if allow_invalid { 1 } else { 0 }]) {
             0 => out.push(b'a'),
             1 => out.push(b'b'),
-            2 => out.extend_from_slice(MB2),
-            3 => out.extend_from_slice(MB4),
+            2 => out.extend_from_slice(*rng.pick(&[MB2, MB2, MB_A0, MB_85])),
+            3 => out.extend_from_slice(*rng.pick(&[MB4, MB4, MB_2005])),
             4 => out.push(b'-'),
             _ => out.push(*rng.pick(&[0xffu8, 0x80, 0xc3, 0xf0])),
         }
